@@ -123,6 +123,7 @@ type MySessGen struct {
 	Upserts bool
 	// ColVal, when set, draws the value written to a column (searchable-column pools of the C09 layer).
 	ColVal func(t TableSpec, c ColSpec) Val
+	pg     *SessGen // owner of the searchable-value pools (EnableSearchPools)
 }
 
 func (g *MySessGen) colVal(t TableSpec, c ColSpec) Val {
